@@ -101,9 +101,9 @@ inductive Op where
   | emit                     -- a hooked block returns: record the current shape
 deriving Repr, DecidableEq
 
-def Shape.prod : Shape → Nat
+def numel : Shape → Nat
   | [] => 1
-  | n :: s => n * Shape.prod s
+  | n :: s => n * numel s
 
 /-- apply `f` on every axis when `ok` holds on every axis -/
 def axes (ok : Nat → Bool) (f : Nat → Nat) (st : State) : Except Err State :=
@@ -114,7 +114,7 @@ def step (op : Op) (st : State) : Except Err State :=
   | .conv k s p d => axes (convOk k s p d) (convOut k s p d) st
   | .convT k s p => axes (convTOk k s p) (convTOut k s p) st
   | .avgPool k s => axes (poolOk k s) (poolOut k s) st
-  | .instNorm => if 1 < st.cur.prod then .ok st else .error .value
+  | .instNorm => if 1 < numel st.cur then .ok st else .error .value
   | .padEven => axes padEvenOk padEvenOut st
   | .replPad p => axes (fun n => 1 ≤ n) (fun n => n + 2 * p) st
   | .dwt => axes dwtOk dwtOut st
